@@ -38,6 +38,18 @@ CLAIMED = {
         note="Same program families and bounds as C02; kconfgen's wrapper (header, ESP_IDF_KCONFIG_MIN_LABELS) is exercised by C13's savedefconfig flow only for rewriting, not for reconstruction.",
         design_ref="DESIGN.md section 3, C10",
     ),
+    "C05": dict(
+        technique="TLA+ choice rule in spec/KEval.tla (mode, user pick if visible, first visible default, first visible member) with ExactlyOne checked by TLC on every configuration (MC_Eval) and on every state of the session model (MC_Hist: set member y/n, gates, unset, reset, replace/merge loads of files assigning several members); every TLC transition replayed on the real code and validated by TLC (MC_HistCheck) including header/CMake/JSON agreement",
+        text="Model checking: ExactlyOne is an invariant of the KStore session model over all action sequences up to the bound and of every enumerated configuration of the F-choice lattice; each transition TLC explores is replayed on a real instance and the observed member values, Choice.selection and the members defined in header, CMake and JSON are compared with the specification.",
+        note="Sessions bounded at 3 actions over ~26-letter alphabets (quick: stride-sampled 500 transitions per program); members are bools with prompts; m-mode / optional choices do not exist in this fork.",
+        design_ref="DESIGN.md section 3, C05",
+    ),
+    "C06": dict(
+        technique="TLA+ numeric evaluation (spec/KEval.tla: range lookup, validity by literal tables, clamp; spec/KStore.tla ValidFor) with WellTyped/InRange invariants checked by TLC over the numeric lattice with user values from the whole literal universe, through set_value and through sdkconfig files; header/CMake/JSON numbers read back and compared by TLC (MC_Eval OutsP)",
+        text="Model checking: TLC enumerates every configuration of the int/hex/float lattice (prompt x set x set default x defaults x literal/conditional/option-valued range) with malformed, negative, huge, out-of-range and differently formatted user values, checks well-typedness and range containment on the model, compares every value with the implementation and checks that the three generators carry the same number (hex with 0x).",
+        note="The property's lexical classes are fixed in tables (int: optional sign + digits; hex: optional 0x + hex digits; float: decimal/exponent, finite); numbers below 2^31; the config-server arrival path is covered by C14/C15.",
+        design_ref="DESIGN.md section 3, C06",
+    ),
 }
 
 REASON_PENDING = "check not built yet in this session (planned in DESIGN.md section 3); not claimed until its TLA+ model and conformance harness exist"
